@@ -13,19 +13,25 @@
    kept struct field once; typed arrays as their elements' bit patterns; bool arrays as bits).
 
    Hypotheses: [head_ok] / [records_ok] — record-type names are distinct valid identifiers,
-   their keys distinct valid strings; [vok rc cfg 0 v] — strings are valid UTF-8, sizes and
+   their keys distinct valid strings; [vok rc cfg 0 v] — strings are valid UTF-8, media types have
+   the form type/subtype the validator asks for (/repo afaa1e5; see C05_example_media), sizes and
    nesting within the limits [rc], map keys one-event keyable values that stay distinct,
    emitted field names distinct, values of a registered record type are of that type, no Edge;
-   [descr cfg v] — no Edge, no signalling float32 NaN, values of a registered record type are
+   [descr cfg v] — no Edge, no signalling float32 NaN, no exported field promoted through an
+   embedded struct whose type name is lower-case, values of a registered record type are
    of that type; [supported] — [vok] without the Edge restriction.
 
    History: the earlier version of this file refuted the property on eight defect classes.
    Four are repaired in /repo, their witnesses pinned below and in the harness: bool slices
    longer than 8 (734b6c6), records omitting a declared field (8413af6), arrays panicking under
    recursion support (7f07b92), and the validator rejecting a marked container inside a marked
-   container (192c5da).  Four remain open: types.Edge without its end event and signalling
-   float32 NaNs (without recursion support); marker on marker and slices sharing their start
-   address (with it).
+   container (192c5da).  Six remain open: types.Edge without its end event, signalling
+   float32 NaNs, promoted fields of an embedded struct with a lower-case type name dropped, two
+   flattened fields going by one name (without recursion support); marker on marker and slices
+   sharing their start address (with it).  [canon] flattens embedded structs the way Go promotes
+   fields (whatever the embedded type is called), the model of the iterator ([iterate]) the way
+   extractFields does (by the name of the embedded type).  Distinct emitted field names are a
+   hypothesis of [vok] and [supported]; [C05_full_any_names] is the property without it.
    [C05_full] is the whole property, each [_refuted] theorem derives its negation from one
    concrete witness of one open class, and [C05_partial] is the property for the fragment that
    excludes exactly those classes (recursion support off, [vok], [descr]). *)
@@ -142,6 +148,64 @@ Theorem C05_same_base_slices_witness :
 Proof. exact same_base_misdescribed. Qed.
 Print Assumptions C05_same_base_slices_witness.
 
+(* defect: struct{ low; Z int } with type low struct{ P int } — Go promotes P to the outer struct,
+   extractFields drops the embedded struct because its type name is lower-case: P does not appear *)
+Theorem C05_promoted_field_dropped_refuted : ~ C05_full.
+Proof. exact full_refuted_promoted_field_dropped. Qed.
+Print Assumptions C05_promoted_field_dropped_refuted.
+Theorem C05_promoted_field_dropped_witness :
+  supported default_rcfg cfg_plain 0 w_hidden = true
+  /\ descr cfg_plain w_hidden = false
+  /\ iterate cfg_plain (Some w_hidden) = [EBeginDoc; EVersion 0; EMap; EStringArray AT_String [122]; EInt 3; EEnd; EEndDoc]
+  /\ accepts_document default_rcfg (iterate cfg_plain (Some w_hidden)) = true
+  /\ read_doc (iterate cfg_plain (Some w_hidden)) = Some (DMap [(DString [122], DScalar (EInt 3))])
+  /\ canon cfg_plain w_hidden = DMap [(DString [112], DScalar (EInt 1)); (DString [122], DScalar (EInt 3))].
+Proof. exact hidden_promoted_dropped. Qed.
+Print Assumptions C05_promoted_field_dropped_witness.
+
+(* defect: struct{ A int; Inner } with type Inner struct{ A int } (legal Go: the outer A shadows the
+   promoted one) — extractFields keeps both, the map has the key "a" twice, the validator refuses
+   the marshaler's events.  [supported] (and [vok]) demand distinct emitted field names, so
+   [C05_full] does not speak about such a struct; [C05_full_any_names] is the property without
+   that demand: it implies [C05_full] and is refuted by this witness. *)
+Definition C05_full_any_names : Prop :=
+  forall (rc : rcfg) (cfg : icfg) (root : option gval),
+    expected_version rc = 0 -> head_ok rc cfg = true -> records_ok cfg = true ->
+    match root with
+    | Some v => supported_any_names rc cfg 0 v = true
+                /\ (c_recursion cfg = false -> acyclic [] v = true)
+                /\ weight (iterate cfg root) <= max_object_count rc
+    | None => 1 <= max_object_count rc
+    end ->
+    snd (iterate_outcome cfg root) = true
+    /\ accepts_document rc (iterate cfg root) = true
+    /\ (if c_recursion cfg
+        then match root with
+             | Some v => acyclic [] v = true -> described_rec (iterate cfg root) = Some (canon cfg v)
+             | None => True
+             end
+        else read_doc (iterate cfg root) = Some (canon_root cfg root)).
+Theorem C05_any_names_implies_full : C05_full_any_names -> C05_full.
+Proof. exact full_property_any_names_stronger. Qed.
+Print Assumptions C05_any_names_implies_full.
+Theorem C05_supported_differs_by_distinct_names_only :
+  forall (rc : rcfg) (cfg : icfg) (v : gval) (d : N),
+    supported rc cfg d v = true -> supported_any_names rc cfg d v = true.
+Proof. intros rc cfg v d. exact (supported_any_names_weaker rc cfg v d). Qed.
+Print Assumptions C05_supported_differs_by_distinct_names_only.
+Theorem C05_duplicate_flattened_name_refuted : ~ C05_full_any_names.
+Proof. exact full_refuted_duplicate_flattened_name. Qed.
+Print Assumptions C05_duplicate_flattened_name_refuted.
+Theorem C05_duplicate_flattened_name_witness :
+  supported_any_names default_rcfg cfg_plain 0 w_shadow = true
+  /\ supported default_rcfg cfg_plain 0 w_shadow = false
+  /\ iterate cfg_plain (Some w_shadow)
+     = [EBeginDoc; EVersion 0; EMap; EStringArray AT_String [97]; EInt 1; EStringArray AT_String [97]; EInt 2; EEnd; EEndDoc]
+  /\ rejected_at default_rcfg (iterate cfg_plain (Some w_shadow)) = Some 5
+  /\ accepts_document default_rcfg (iterate cfg_plain (Some w_shadow)) = false.
+Proof. exact shadow_rejected. Qed.
+Print Assumptions C05_duplicate_flattened_name_witness.
+
 (* ---- repaired classes: the former witnesses, pinned ---------------------------------------- *)
 
 (* []bool of length 9, only the last element true: second byte 1 (was 0) *)
@@ -192,7 +256,9 @@ Print Assumptions C05_nested_markers_pinned.
 (* ---- the property on the fragment without the open classes ------------------------------- *)
 
 (* Excluded: recursion support (two open defect classes above; its general statement is not
-   proved beyond completion), types.Edge, signalling float32 NaNs; map keys are restricted to
+   proved beyond completion), types.Edge, signalling float32 NaNs, exported fields promoted
+   through an embedded struct with a lower-case type name ([descr]), flattened fields that go
+   by one name ([vok]: emitted names distinct); map keys are restricted to
    one-event keyable values (see [vok]).  Bool slices of every length and records with empty
    fields are inside the fragment. *)
 Theorem C05_partial :
@@ -231,6 +297,66 @@ Proof. vm_compute. repeat split. Qed.
 Example C05_example_recursion :
   let v := VSlice 1 [VIface (VPtr 2 (VInt 5)); VIface (VPtr 2 (VInt 5))] in
   iterate cfg_rec (Some v) = [EBeginDoc; EVersion 0; EList; EMarker [48]; EInt 5; ERefLocal [48]; EEnd; EEndDoc]
+  /\ accepts_document default_rcfg (iterate cfg_rec (Some v)) = true
+  /\ described_rec (iterate cfg_rec (Some v)) = Some (canon cfg_rec v).
+Proof. vm_compute. repeat split. Qed.
+
+(* a types.Media with a well-formed media type ("a/b") is inside the fragment and accepted; with a
+   malformed one ("a": no subtype) it is outside [vok] / [supported], and the validator does refuse
+   the marshaler's events (rules ValidateMediaType, /repo afaa1e5) *)
+Example C05_example_media :
+  let good := VSlice 1 [VIface (VMedia false [97; 47; 98] [1; 2]); VIface (VOPtr (VMedia false [65; 47; 66] []))] in
+  let bad := VMedia false [97] [1] in
+  vok default_rcfg cfg_plain 0 good = true /\ descr cfg_plain good = true
+  /\ accepts_document default_rcfg (iterate cfg_plain (Some good)) = true
+  /\ read_doc (iterate cfg_plain (Some good)) = Some (canon cfg_plain good)
+  /\ vok default_rcfg cfg_plain 0 bad = false /\ supported default_rcfg cfg_plain 0 bad = false
+  /\ accepts_document default_rcfg (iterate cfg_plain (Some bad)) = false.
+Proof. vm_compute. repeat split. Qed.
+
+(* embedded structs, three levels deep (Outer embeds Middle embeds Base embeds Core), as a map and
+   as a record: every field of every level once, each with its own value *)
+Example C05_example_embedding :
+  let fld n := mkF n true false ODefault 9223372036854775807%Z in
+  let emb n := mkF n true true ODefault 9223372036854775807%Z in
+  let core := VStruct 4 [(fld [65], VInt 1); (fld [66], VInt 2); (fld [67], VInt 3)] in
+  let base := VStruct 3 [(emb [67; 111; 114; 101], core); (fld [68], VInt 4)] in
+  let middle := VStruct 2 [(emb [66; 97; 115; 101], base); (fld [69], VInt 5)] in
+  let outer_fields := [(emb [77; 105; 100; 100; 108; 101], middle); (fld [70], VInt 6)] in
+  let outer := VStruct 1 outer_fields in
+  let cfg_o := mkCfg true false OEmpty [mkRT [111] 1 outer_fields] in
+  iterate cfg_plain (Some outer)
+  = [EBeginDoc; EVersion 0; EMap;
+     EStringArray AT_String [97]; EInt 1; EStringArray AT_String [98]; EInt 2; EStringArray AT_String [99]; EInt 3;
+     EStringArray AT_String [100]; EInt 4; EStringArray AT_String [101]; EInt 5; EStringArray AT_String [102]; EInt 6;
+     EEnd; EEndDoc]
+  /\ vok default_rcfg cfg_plain 0 outer = true /\ descr cfg_plain outer = true
+  /\ read_doc (iterate cfg_plain (Some outer)) = Some (canon cfg_plain outer)
+  /\ iterate cfg_o (Some outer)
+     = [EBeginDoc; EVersion 0; ERecordType [111];
+        EStringArray AT_String [97]; EStringArray AT_String [98]; EStringArray AT_String [99];
+        EStringArray AT_String [100]; EStringArray AT_String [101]; EStringArray AT_String [102]; EEnd;
+        ERecord [111]; EInt 1; EInt 2; EInt 3; EInt 4; EInt 5; EInt 6; EEnd; EEndDoc]
+  /\ head_ok default_rcfg cfg_o = true /\ records_ok cfg_o = true /\ vok default_rcfg cfg_o 0 outer = true
+  /\ read_doc (iterate cfg_o (Some outer)) = Some (canon cfg_o outer).
+Proof. vm_compute. repeat split. Qed.
+
+(* recursion support: a struct and its first field live at the same address but are different
+   objects (duplicates.TypedPointer = type and address, hence two identities 2 and 3): each gets
+   its own marker, and the references resolve to the value *)
+Example C05_example_same_address :
+  let fld n := mkF n true false ODefault 9223372036854775807%Z in
+  let pos := VStruct 2 [(fld [88], VInt 5)] in
+  let sprite := VStruct 1 [(fld [80; 111; 115], pos); (fld [78; 97; 109; 101], VString [115])] in
+  let v := VSlice 1 [VIface (VPtr 2 sprite); VIface (VPtr 2 sprite); VIface (VPtr 3 pos); VIface (VPtr 3 pos)] in
+  iterate cfg_rec (Some v)
+  = [EBeginDoc; EVersion 0; EList;
+     EMarker [48]; EMap; EStringArray AT_String [112; 111; 115]; EMap; EStringArray AT_String [120]; EInt 5; EEnd;
+                         EStringArray AT_String [110; 97; 109; 101]; EStringArray AT_String [115]; EEnd;
+     ERefLocal [48];
+     EMarker [49]; EMap; EStringArray AT_String [120]; EInt 5; EEnd;
+     ERefLocal [49];
+     EEnd; EEndDoc]
   /\ accepts_document default_rcfg (iterate cfg_rec (Some v)) = true
   /\ described_rec (iterate cfg_rec (Some v)) = Some (canon cfg_rec v).
 Proof. vm_compute. repeat split. Qed.
